@@ -158,6 +158,7 @@ type fxConn struct {
 	mu        sync.Mutex
 	nstreams  int
 	opened    []*fxStream
+	scope     network.ConnManagementScope // optional: a real connection scope, released by Close as real transports do
 }
 
 func fxNewConn(name string, t *fxTransport, local, remote fxIdent, raddr ma.Multiaddr, limited bool) *fxConn {
@@ -180,6 +181,9 @@ func (c *fxConn) Close() error {
 	c.closeOnce.Do(func() {
 		c.closeAt = vs.Stamp()
 		close(c.closed)
+		if c.scope != nil {
+			c.scope.Done()
+		}
 	})
 	return nil
 }
@@ -227,8 +231,13 @@ func (c *fxConn) RemotePublicKey() ic.PubKey         { return c.remote.Pub }
 func (c *fxConn) ConnState() network.ConnectionState { return network.ConnectionState{} }
 func (c *fxConn) LocalMultiaddr() ma.Multiaddr       { return c.laddr }
 func (c *fxConn) RemoteMultiaddr() ma.Multiaddr      { return c.raddr }
-func (c *fxConn) Scope() network.ConnScope           { return &network.NullScope{} }
-func (c *fxConn) Transport() transport.Transport     { return c.tpt }
+func (c *fxConn) Scope() network.ConnScope {
+	if c.scope != nil {
+		return c.scope
+	}
+	return &network.NullScope{}
+}
+func (c *fxConn) Transport() transport.Transport { return c.tpt }
 func (c *fxConn) Stat() network.ConnStats {
 	return network.ConnStats{Stats: network.Stats{Limited: c.limited}}
 }
@@ -268,6 +277,7 @@ type fxTransport struct {
 	nconn   int
 	updates bool // implement DialUpdater behaviour
 	hook    func(rec *fxDial, begin bool)
+	rm      network.ResourceManager // optional: connections get a real scope (opened here, as the upgrader does)
 }
 
 func fxNewTransport(name string, local fxIdent, proxy bool, codes ...int) *fxTransport {
@@ -338,6 +348,19 @@ func (t *fxTransport) dial(ctx context.Context, raddr ma.Multiaddr, p peer.ID, u
 			name := fmt.Sprintf("%s#%d", t.name, t.nconn)
 			t.mu.Unlock()
 			c := fxNewConn(name, t, t.local, remote, raddr, t.limited)
+			if t.rm != nil {
+				sc, err := t.rm.OpenConnection(network.DirOutbound, true, raddr)
+				if err != nil {
+					rec.End, rec.Result = vs.Stamp(), fxFail
+					return nil, err
+				}
+				if err := sc.SetPeer(remote.ID); err != nil {
+					sc.Done()
+					rec.End, rec.Result = vs.Stamp(), fxFail
+					return nil, err
+				}
+				c.scope = sc
+			}
 			rec.End = vs.Stamp()
 			rec.Result = oc
 			rec.Conn = c
